@@ -90,7 +90,7 @@ def check_case(case):
 
 OPS = ['delete', 'duplicate', 'swap', 'move', 'truncate', 'retag', 'orphan-trailer', 'dup-trailer', 'bad-count', 'empty-segment',
        'blank-segment', 'sep-only-segment', 'no-elements', 'extra-elements', 'extra-components', 'long-segment', 'second-isa',
-       'unknown-gs08', 'bad-isa12', 'leading-blank', 'trailing-seps', 'bad-bht02', 'bad-hl', 'lowercase-id', 'isa-15-elements', 'delete-header', 'garble-element', 'garble-element', 'bad-lx', 'empty-first-component', 'empty-first-component', 'trailer-before-header', 'append-orphan-envelope']
+       'unknown-gs08', 'bad-isa12', 'leading-blank', 'trailing-seps', 'bad-bht02', 'bad-hl', 'lowercase-id', 'isa-15-elements', 'delete-header', 'garble-element', 'garble-element', 'bad-lx', 'empty-first-component', 'empty-first-component', 'trailer-before-header', 'append-orphan-envelope', 'pile-up', 'pile-up', 'pile-up']
 
 
 def mutate(text, ch, nops):
@@ -203,6 +203,33 @@ def mutate(text, ch, nops):
                 comps[0] = ''
                 p[q] = sub.join(comps)
                 segs[j] = ele.join(p)
+        elif op == 'pile-up':
+            # several defects on one element (a composite if the segment has one): errors that share a position
+            withc = [j for j, sg in enumerate(segs) if j > 0 and sub in sg]
+            if withc and ch.chance(.8):
+                i = withc[ch.integer(0, len(withc) - 1)]
+            p = segs[i].split(ele)
+            if len(p) > 1 and not segs[i].startswith('ISA'):
+                cand = [q for q in range(1, len(p)) if sub in p[q]] or list(range(1, len(p)))
+                j = cand[ch.integer(0, len(cand) - 1)]
+                comps = p[j].split(sub)
+                ms = [ch.choice(['garble', 'extra', 'extra', 'empty-first', 'long', 'ctrl']) for _ in range(ch.integer(2, 4))]
+                if ch.chance(.5):
+                    ms[0] = 'extra'
+                for m in ms:
+                    q = ch.integer(0, len(comps) - 1)
+                    if m == 'garble':
+                        comps[q] = ch.choice(['', 'X' * 40, '-', 'é', ' ', '0', 'ZZZZ'])
+                    elif m == 'extra':
+                        comps += ['Y'] * ch.integer(1, 6)
+                    elif m == 'empty-first':
+                        comps[0] = ''
+                    elif m == 'long':
+                        comps[q] = comps[q] + 'Z' * 60
+                    else:
+                        comps[q] = comps[q] + '\x07'
+                p[j] = sub.join(comps)
+                segs[i] = ele.join(p)
         elif op == 'trailer-before-header':
             # a trailer moved in front of the header it closes (GE before its GS, SE before its ST, IEA before ... )
             pairs = {'GS': 'GE', 'ST': 'SE'}
